@@ -1336,7 +1336,8 @@ def fast_register(top):
         b = _bind_args(['self', 'points'], args, kw)
         P = b['points']
         check_rank2('self.is_pareto_optimal', P)
-        run.oblige('VizierC11.recursion.variant_decreases', z3.And(zi(P.shape[0]) >= 0, zi(P.shape[0]) < zi(run.c11['n'])))
+        if top == FAST_OP:
+            run.oblige('VizierC11.recursion.variant_decreases', z3.And(zi(P.shape[0]) >= 0, zi(P.shape[0]) < zi(run.c11['n'])))
         return contract_result(it, P, P, True, 'self.is_pareto_optimal')
 
     E.MODELS[PO + ':NaiveParetoOptimalAlgorithm.is_pareto_optimal_against'] = base_against
@@ -1779,6 +1780,163 @@ def xla_preamble(chk, tier):
                '1, 2, 3, 4, 5 and the default 10 (the loop over the shard intervals is unrolled for each count)')
 
 
+# ------------------------------------------------------------------------------------------ 5c. InRamPolicySupporter.GetBestTrials
+GBT = 'InRamPolicySupporter.GetBestTrials'
+CONV_CORE = 'vizier.pyvizier.converters.core'
+SAFETY = 'vizier._src.pyvizier.multimetric.safety'
+
+
+def gbt_register():
+    """externals of GetBestTrials (all stated in the evidence):
+      * self.trials                          an arbitrary list of n trials (opaque objects);
+      * SafetyChecker(...).warp_unsafe_trials identity on the list positions (it rewrites measurements in place, C11 assumes it from safety.py);
+      * TrialToArrayConverter.to_labels      an arbitrary (n, d) float array: row i = the sign-flipped objective values of trial i,
+                                             NaN for a trial without objective values (infeasible / not completed) -- C15;
+      * FastParetoOptimalAlgorithm().is_pareto_optimal   by its contract (verified above for all point sets)."""
+    fast_register(None)
+
+    def trials_prop(it, obj):
+        T = it.run.c11['T']
+        return SymList(T.n, T.arr, T.elem)
+    E.PROPERTIES[LPS + ':InRamPolicySupporter.trials'] = trials_prop
+
+    def safety_ctor(it, args, kw):
+        return Obj('opaque:SafetyChecker', {'warp_unsafe_trials': Builtin('warp_unsafe_trials', lambda it_, a, k: a[0])})
+    E.MODELS[SAFETY + ':SafetyChecker'] = safety_ctor
+
+    def from_study_config(it, args, kw):
+        def to_labels(it_, a, k):
+            g = it_.run.c11
+            ts = a[0]
+            if not (isinstance(ts, SymList) and ts.arr.eq(g['T'].arr) and ts.n.eq(g['T'].n)):
+                raise Unsupported('to_labels called on something else than the (warped copy of the) trial list')
+            return g['L'].copy()
+        return Obj('opaque:TrialToArrayConverter', {'to_labels': Builtin('to_labels', to_labels)})
+    E.MODELS[CONV_CORE + ':TrialToArrayConverter.from_study_config'] = from_study_config
+
+
+def gbt_entry(single):
+    def entry_of(sz):
+        def entry(it):
+            run = it.run
+            if sz is None:
+                n = z3.Int('n')
+                run.assume(n >= 0)
+                if single:
+                    d = 1
+                else:
+                    d = z3.Int('d')
+                    run.assume(d >= 2)
+            else:
+                n, d = sz
+            L = fresh_points(run, 'L', n, d, nan_free=False)
+            T = SymList(zi(n), z3.Const('trials', z3.ArraySort(z3.IntSort(), pm.PyObj)), 'pyobj')
+            run.c11 = dict(L=L, T=T, n=n, d=d, single=single)
+            if sz is not None:
+                run.c11['bounds'] = (n, n)
+                tid = z3.Function('trial_id', pm.PyObj, z3.IntSort())      # the trials are pairwise different objects
+                for i_ in range(n):
+                    run.assume(tid(T.arr[i_]) == i_)
+            has_objective = z3.Bool('has_objective_metric')
+            mi = Obj('opaque:MetricsConfig', {'of_type': Builtin('of_type', lambda it_, a, k: has_objective),
+                                              'exclude_type': Builtin('exclude_type', lambda it_, a, k: Obj('opaque:MetricsConfig', {}))})
+            cfg = Obj('opaque:ProblemStatement', {'metric_information': mi, 'is_single_objective': single})
+            cls = ModuleInfo.get(LPS).classes['InRamPolicySupporter']
+            self_ = Obj(cls, {'study_config': cfg})
+            return it.invoke(E.FuncVal(cls.mod, cls.methods['GetBestTrials'], cls), [self_], {})
+        return entry
+    return entry_of
+
+
+def gbt_post(p):
+    pre = 'C11.GetBestTrials'
+    run = p.run
+    g = run.c11
+    L, T, n, d = g['L'], g['T'], g['n'], g['d']
+    if p.kind == 'raise':
+        return [(pre + '.raises_only_without_objective', z3.Not(z3.Bool('has_objective_metric')))]
+    R = p.value
+    if not isinstance(R, SymList):
+        return [(pre + '.result_is_a_list', z3.BoolVal(False))]
+    fs = getattr(run, 'np_filters', [])
+    if len(fs) != 2 or not fs[1]['arr'].eq(R.arr):
+        return [(pre + '.selection_is_two_mask_filters', z3.BoolVal(False))]
+    f1, f2 = fs
+    s1, s2 = f1['src'], f2['src']
+    nr, ra, n1 = R.n, R.arr, f1['n']
+    w = lambda j: s1(s2(j))
+    dd = conc(d)
+    valid = lambda i: z3.Not(QE(d, lambda k: xreal.is_nan(L.at(i, k))))
+    if dd == 1:
+        better = lambda j, i: xreal.gt(L.at(j, 0), L.at(i, 0))
+    elif dd is not None:
+        better = lambda j, i: dom(L, j, L, i, d)
+    else:
+        GEf, GTf = row_preds(run, L.fn, L.fn, 0, d)
+        better = lambda j, i: z3.And(GEf(j, i), GTf(j, i))
+    j1 = z3.Int('j!sp')
+    if conc(n) is not None:
+        spec = lambda i: z3.And(valid(i), z3.Not(QE(n, lambda j: z3.And(valid(j), better(j, i)))))
+    else:
+        spec = lambda i: z3.And(valid(i), z3.Not(z3.Exists([j1], z3.And(j1 >= 0, j1 < zi(n), valid(j1), better(j1, i)))))
+    j0, i0, c1, jb = z3.Int('j0!p'), z3.Int('i0!p'), z3.Int('c1!p'), z3.Int('jb!p')
+    in_r = z3.And(j0 >= 0, j0 < nr)
+    Lm = lambda name, f: (pre + '.' + name, f, 'lemma')
+    if conc(n) is not None:
+        # model query: the result is exactly the filter of the trial list by the specification, in order
+        N = conc(n)
+        sp = [spec(z3.IntVal(i)) for i in range(N)]
+        pos = [NP._count_terms(sp[:i]) for i in range(N)]
+        exact = z3.And([nr == NP._count_terms(sp)] + [z3.Implies(sp[i], ra[pos[i]] == T.arr[i]) for i in range(N)])
+        return [(pre + '.iff', exact)]
+    obs = [
+        Lm('lemma.candidates_are_the_trials_with_labels',
+           QA(n1, lambda c: z3.And(s1(c) >= 0, s1(c) < zi(n), valid(s1(c))))),
+        Lm('lemma.every_trial_with_labels_is_a_candidate', z3.Implies(z3.And(i0 >= 0, i0 < zi(n), valid(i0)), QE(n1, lambda c: s1(c) == i0))),
+        Lm('lemma.result_is_filtered', z3.Implies(in_r, z3.And(s2(j0) >= 0, s2(j0) < n1, ra[j0] == T.arr[w(j0)], f2['cond'](s2(j0))))),
+    ]
+    NP.fact(run, f1['complete_at'](i0))
+    NP.fact(run, f2['complete_at'](c1))
+    K = lambda c: z3.And(c >= 0, c < n1, s1(c) == i0)
+    obs += [
+        (pre + '.infeasible_never_reported', z3.Implies(in_r, valid(w(j0)))),
+        (pre + '.iff.reported_meets_spec', z3.Implies(in_r, z3.And(w(j0) >= 0, w(j0) < zi(n), ra[j0] == T.arr[w(j0)], spec(w(j0))))),
+        Lm('iff.spec_is_reported.obtain_candidate', z3.Implies(z3.And(i0 >= 0, i0 < zi(n), valid(i0)), QE(n1, K))),
+        Lm('iff.spec_is_reported.candidate_is_selected', z3.Implies(z3.And(i0 >= 0, i0 < zi(n), spec(i0), K(c1)), f2['cond'](c1))),
+        (pre + '.iff.spec_is_reported', z3.Implies(z3.And(i0 >= 0, i0 < zi(n), spec(i0), K(c1)), QE(nr, lambda j: w(j) == i0))),
+        (pre + '.order', z3.Implies(z3.And(j0 >= 0, j0 < jb, jb < nr), w(j0) < w(jb))),
+    ]
+    return obs
+
+
+def gbt_replay(name, path, model, sz):
+    g = path.run.c11
+    n, d = conc(g['n']), conc(g['d'])
+    if n is None or d is None:
+        return None
+    rows = array_values(model, g['L'], n, d)
+    trials = [None if any(x != x for x in r) else jsonable([r])[0] for r in rows]       # a NaN label row = a trial without objective values
+    return {'mode': 'best_trials', 'obligation': name, 'goals': ['MAXIMIZE'] * d, 'trials': trials}
+
+
+def check_best_trials(chk, tier):
+    gbt_register()
+    for single in (True, False):
+        pre = 'C11.GetBestTrials'
+        tag = '[single-objective]' if single else '[multi-objective]'
+        rn = support_rename(pre)
+        Fn(chk, tier, GBT, gbt_entry(single), gbt_post, replay_of=gbt_replay, bounded_sizes=[(2, 1), (3, 1)] if single else [(2, 2), (3, 2)], rename=(lambda x, rn=rn, tag=tag: rn(x) + tag), workers=1,
+           expect_paths=2, timeout_ms=8000 if tier == 'quick' else 60000).run()
+
+
+def gbt_preamble(chk, tier):
+    chk.function(LPS, GBT)
+    chk.assume('GetBestTrials (count unset) is verified for every number of trials and objectives against its externals: self.trials is any list; '
+               'SafetyChecker.warp_unsafe_trials keeps the list positions; TrialToArrayConverter.to_labels returns an arbitrary (n, d) array whose '
+               'row i holds the sign-flipped objective values of trial i, NaN for a trial without objective values (C15, safety.py); '
+               'is_single_objective <=> d == 1; FastParetoOptimalAlgorithm.is_pareto_optimal by its contract (proved in this check)')
+
+
 # ------------------------------------------------------------------------------------------ 5b. bounded stand-ins (never counted as proved)
 def start_bounded(pool, tier):
     q = tier == 'quick'
@@ -1983,7 +2141,8 @@ def main(tier):
     lot_preamble(chk, tier)
     fast_preamble(chk, tier)
     xla_preamble(chk, tier)
-    tasks = [('xla_simple', check_xla_simple, ())]
+    gbt_preamble(chk, tier)
+    tasks = [('xla_simple', check_xla_simple, ()), ('best_trials', check_best_trials, ())]
     for k in (1, 2, 3, 4, 5):
         tasks.append(('xla_frontier_%d' % k, check_xla_frontier, (k,)))
     tasks.append(('xla_class', check_xla_frontier, (10, True)))
